@@ -115,8 +115,9 @@ def check_histories(rep, fsdbh, cases, mode="inline", known_d7=False, oracle="sp
     for k, c in enumerate(cases):
         H, auto = flags[k]
         usable = H if oracle == "spec" else auto
-        # the refinement theorem at run time (extracted model vs extracted spec under H, without reopen)
-        if usable and reopen_free(c) and model[k] != spec[k]:
+        # the refinement theorem at run time (extracted model vs extracted spec under H; the key-value
+        # machine does not model Reopen's key reordering, so kv cases with reopen are skipped here)
+        if usable and (oracle == "spec" or reopen_free(c)) and model[k] != spec[k]:
             st.tcb += 1
             raise C.CheckBroken("extracted model and extracted spec disagree under the theorem's hypotheses "
                                 "(contradicts model_refines_spec; TCB alarm) on case:\n" + c[:1500])
